@@ -1227,6 +1227,16 @@ def fixed_corner_models() -> list[tuple[onnx.ModelProto, dict]]:
          H.make_node("Reshape", ["sc", "s3"], ["g3"]), H.make_node("Add", ["x", "g3"], ["y"])],
         "g", [f3("x")], [f3("y")]), opset_imports=[H.make_operatorsetid("", 17), H.make_operatorsetid("com.microsoft", 1), H.make_operatorsetid("ai.onnx.ml", 1)], ir_version=8)
     out.append((two, ["opset-17", "version-family", "second-domain:ai.onnx.ml", "second-domain:com.microsoft", "sig@depth0"]))
+    # no default-domain import at all (only contrib operators); the preamble Constant of spox is a default-domain node
+    oc = H.make_model(H.make_graph([H.make_node("Gelu", ["x"], ["g"], domain="com.microsoft"), H.make_node("BiasGelu", ["g", "w"], ["y"], domain="com.microsoft")],
+                                   "g", [f3("x")], [f3("y"), f3("x")], initializer=[NH.from_array(np.array([0.5, 1, 2, 3], np.float32), "w")]),
+                      opset_imports=[H.make_operatorsetid("com.microsoft", 1)], ir_version=8)
+    out.append((oc, ["version-family", "second-domain:com.microsoft", "no-default-domain-import", "output-is-input"]))
+    # a changed operator inside the body of a SequenceMap (function operator with a graph attribute, opset 17)
+    smb = H.make_graph([H.make_node("ReduceMean", ["e"], ["em"], axes=[1], keepdims=1), H.make_node("Sub", ["e", "em"], ["eo"])], "b", [f3("e")], [f3("eo")])
+    out.append((mk([H.make_node("SequenceConstruct", ["x", "x"], ["s"]), H.make_node("SequenceMap", ["s"], ["s2"], body=smb),
+                    H.make_node("Constant", [], ["i"], value=NH.from_array(np.array(1, np.int64), "i")), H.make_node("SequenceAt", ["s2", "i"], ["y"])],
+                   [f3("x")], [f3("y")], opset=17), ["opset-17", "version-family", "sig@depth1", "SequenceMap-body"]))
     # known (third-party): Hardmax changed meaning at 13, the converter copies it verbatim
     hm = mk([H.make_node("Hardmax", ["x"], ["y"])], [f3("x")], [f3("y")], opset=11)
     hm.ir_version = 7
@@ -1252,7 +1262,7 @@ def fixed_corner_models() -> list[tuple[onnx.ModelProto, dict]]:
          H.make_node("Cast", ["xj"], ["xf"], to=TP.FLOAT), H.make_node("Add", ["x", "xf"], ["y"])],
         "g", [f3("x")], [f3("y")]), opset_imports=[H.make_operatorsetid("", 17), H.make_operatorsetid("ai.onnx.ml", 1)], ir_version=8)
     out.append((le, ["opset-17", "version-family", "second-domain:ai.onnx.ml", "ml-1-label-encoder"]))
-    return [(m, {"features": sorted(ft + ["corner"]), "runnable": True, "opset": m.opset_import[0].version, "kind": "corner"}) for m, ft in out]
+    return [(m, {"features": sorted(ft + ["corner"]), "runnable": True, "opset": next((o.version for o in m.opset_import if o.domain in ("", "ai.onnx")), 17), "kind": "corner"}) for m, ft in out]
 
 
 def make_models(ck: core.Check, n_hand: int, n_spox: int, n_vbody: int = 0):
